@@ -72,6 +72,6 @@ def sub_fidelity(rho: np.ndarray, sigma: np.ndarray) -> float:
     if not is_density(rho) or not is_density(sigma):
         raise ValueError("Sub-fidelity is only defined for density operators.")
 
-    return np.real(
-        np.trace(rho @ sigma) + np.sqrt(2 * (np.trace(rho @ sigma) ** 2 - np.trace(rho @ sigma @ rho @ sigma)))
-    )
+    # The radicand is non-negative in exact arithmetic; rounding can make it slightly negative (e.g. for pure states).
+    radicand = np.real(2 * (np.trace(rho @ sigma) ** 2 - np.trace(rho @ sigma @ rho @ sigma)))
+    return np.real(np.trace(rho @ sigma) + np.sqrt(max(radicand, 0.0)))
